@@ -172,6 +172,9 @@ impl<V: Clone> CacheRing<V> {
         if let Some(&slot_idx) = index.get(&key_hash) {
             drop(index);
 
+            #[cfg(neumann_verif)]
+            crate::verif_hooks::yield_point("store.cache.get.indexed");
+
             let mut slots = self.slots.write();
             if let Some(ref mut entry) = slots[slot_idx] {
                 if entry.key == key {
@@ -214,8 +217,14 @@ impl<V: Clone> CacheRing<V> {
             }
         }
 
+        #[cfg(neumann_verif)]
+        crate::verif_hooks::yield_point("store.cache.put.checked");
+
         // Find a slot: either empty or evict lowest-scored
         let slot_idx = self.find_slot_for_insert();
+
+        #[cfg(neumann_verif)]
+        crate::verif_hooks::yield_point("store.cache.put.slot");
 
         let mut slots = self.slots.write();
         let mut index = self.index.write();
@@ -280,6 +289,9 @@ impl<V: Clone> CacheRing<V> {
         let Some(slot_idx) = self.index.write().remove(&key_hash) else {
             return false;
         };
+
+        #[cfg(neumann_verif)]
+        crate::verif_hooks::yield_point("store.cache.del.unindexed");
 
         let mut slots = self.slots.write();
         if let Some(ref entry) = slots[slot_idx] {
